@@ -75,6 +75,7 @@ func init() {
 			ruleNoWaitInDispatchLoop(c, d)
 			ruleSemaphore(c, d)
 			ruleSlotWaitErrorReturnedAsIs(c, d)
+			ruleOneSemaphoreAtConstruction(c)
 			ruleNoLockBeforeHandler(c, d)
 			ruleBuiltinThroughInvoke(c)
 		},
